@@ -105,10 +105,10 @@ def gen_cases(run, n):
         cases.append({"txns": ts, "tags": tags, "src": "gen"})
     # sums that leave the 96-bit range and come back (or not)
     MAX = 2 ** 96 - 1
-    for i in range(max(4, n // 25)):
+    for i in range(max(14, n // 12)):
         sc = r.choice([0, 0, 3])
         big = (MAX - r.randint(0, 5), sc)
-        shape = r.randint(0, 3)
+        shape = i % 7 if i < 14 else r.randint(0, 6)
         P = lambda acc, amt: {"acc": acc, "amount": amt, "comm": "", "closing": None, "opening": None, "comment": None}
         if shape == 0:
             posts, last = [P("e", big), P("e2", big), P("a", (-big[0], sc))], None
@@ -116,8 +116,19 @@ def gen_cases(run, n):
             posts, last = [P("e", big), P("e2", big)], {"acc": "a", "comment": None}
         elif shape == 2:
             posts, last = [P("e", big), P("a", (-big[0], sc))], None                     # balanced, representable
-        else:
+        elif shape == 3:
             posts, last = [P("e", big), P("e2", (1, sc)), P("a", (-big[0], sc)), P("b", (-1, sc))], None
+        else:
+            # two huge cancelling postings and a tiny one which the decimal library's rounding absorbs: the exact sum
+            # is the tiny amount, so the transaction must be rejected whatever the order of the postings
+            B = r.randint(1, 9) * 10 ** r.randint(22, 27) + r.randint(0, 10 ** 6)
+            tiny = (r.randint(1, 9), r.randint(5, 28))
+            trio = [P("e", (B, 0)), P("t", tiny), P("a", (-B, 0))]
+            if shape == 5:
+                trio = [trio[1], trio[0], trio[2]]
+            elif shape == 6:
+                trio = [trio[0], trio[2], trio[1]]
+            posts, last = trio, None
         t = {"ts": "2024-01-01", "code": None, "desc": "t0", "uuid": None, "loc": None, "tags": None, "comments": [], "posts": posts, "last": last}
         cases.append({"txns": [t], "tags": ["big-sum-shape-%d" % shape], "src": "gen"})
     return cases
